@@ -10,7 +10,7 @@ import textwrap
 import zlib
 from typing import (
     TYPE_CHECKING, Callable, ContextManager, Dict, IO, Iterable, Mapping,
-    Optional, Tuple
+    Optional, Set, Tuple
 )
 
 import appdirs
@@ -236,16 +236,21 @@ class SphinxInventoryWriter:
 # The rest of this file is compressed with zlib.
 """.encode('utf-8')
 
-    def _generateContent(self, subjects: Iterable[Documentable]) -> bytes:
+    def _generateContent(self, subjects: Iterable[Documentable], 
+                         _seen: Optional[Set[Documentable]] = None) -> bytes:
         """
         Write inventory for all `subjects`.
         """
+        # An object is listed once, also when it is given twice 
+        # or when it is given together with an object that contains it.
+        seen: Set[Documentable] = set() if _seen is None else _seen
         content = []
         for obj in subjects:
-            if not obj.isVisible:
+            if not obj.isVisible or obj in seen:
                 continue
+            seen.add(obj)
             content.append(self._generateLine(obj).encode('utf-8'))
-            content.append(self._generateContent(obj.contents.values()))
+            content.append(self._generateContent(obj.contents.values(), seen))
 
         return b''.join(content)
 
